@@ -304,6 +304,7 @@ def extract_table(prog, fn):
     # throwing comparisons
     valids = []
     unknown_valid = []
+    weakened = []
     for s_ in walk(fn["body"]):
         if s_.get("k") != "IfStmt" or fi.in_lambda(s_) is not None:
             continue
@@ -327,6 +328,25 @@ def extract_table(prog, fn):
                 l, r = _operand(fn, x["c"][0], afl), _operand(fn, x["c"][1], afl)
                 valids.append((l, x["op"], r, s_))
                 valids.append((r, _FLIP[x["op"]], l, s_))
+            elif x.get("k") == "BinaryOperator" and x.get("op") == "&&":
+                # the exception is thrown only when ALL conjuncts hold: each comparison among them is a validation that another
+                # condition switches off
+                conj, todo2 = [], [x]
+                while todo2:
+                    y = strip(todo2.pop())
+                    while y.get("k") == "ParenExpr" and y.get("c"):
+                        y = strip(y["c"][0])
+                    if y.get("k") == "BinaryOperator" and y.get("op") == "&&":
+                        todo2.extend(y["c"])
+                    else:
+                        conj.append(y)
+                for y in conj:
+                    if y.get("k") == "BinaryOperator" and y.get("op") in _FLIP:
+                        l, r = _operand(fn, y["c"][0], afl), _operand(fn, y["c"][1], afl)
+                        others = [z for z in conj if z is not y]
+                        weakened.append((l, y["op"], r, s_, others))
+                        weakened.append((r, _FLIP[y["op"]], l, s_, others))
+                unknown_valid.append((x, s_))
             else:
                 unknown_valid.append((x, s_))
     rows = []
@@ -368,6 +388,7 @@ def extract_table(prog, fn):
             names = {_field_name(fn, y, afl) for y in walk(x)}
             if names & fields:
                 row["unknown_valid"].append(s_)
+        row["weakened"] = [(l, op, rr, s_, others) for (l, op, rr, s_, others) in weakened if l in fields]
         rows.append(row)
     return rows
 
@@ -409,6 +430,10 @@ def run(rep, prog, tier):
             for (op, rhs) in valids:
                 if (field, op, rhs) in got:
                     rep.ok("C18.validation-field", prog, fn, r["node"], "<%s>: rejects %s %s %s" % (tag, field, op, rhs))
+                elif any((l_, op_, r_) == (field, op, rhs) for (l_, op_, r_, _s, _o) in r.get("weakened", [])):
+                    w_ = [x_ for x_ in r["weakened"] if (x_[0], x_[1], x_[2]) == (field, op, rhs)][0]
+                    rep.violation("C18.validation-field", prog, fn, w_[3], "<%s>: the check %s %s %s only applies under another condition" % (tag, field, op, rhs),
+                                  "after reading <%s> the reader must throw whenever %s %s %s; here the exception is thrown only if in addition %s holds, so an out-of-range value is accepted whenever that other condition is false" % (tag, field, op, rhs, " and ".join("'%s'" % short(o_, 50) for o_ in w_[4])))
                 elif r.get("unknown_valid"):
                     raise AnalysisBroken("%s: the check on %s after reading <%s> has a form that is not decided (%s)" % (qn, field, tag, short(r["unknown_valid"][0]["cond"], 60)))
                 else:
